@@ -469,6 +469,7 @@ impl Ctx {
             "reader_read" => crate::exec_ocf::reader_read(self, o),
             // ------------------------------------------------------------ single object
             "so_history" => crate::exec_ocf::so_history(self, o),
+            "damage_scan" => crate::scan::damage_scan(o),
             "so_read" => {
                 let s = self.schema(gs(o, "sid")?)?;
                 let data = unhex(gs(o, "bytes")?)?;
